@@ -24,16 +24,43 @@ import run_check  # noqa: E402
 BIN = os.path.expanduser("~/.rustup/toolchains/nightly-x86_64-unknown-linux-gnu/lib/rustlib/x86_64-unknown-linux-gnu/bin")
 
 
+def idents(mangled):
+    """The identifiers inside a v0-mangled Rust symbol, in order (no demangler is installed): enough to name the function."""
+    out = []
+    i = 0
+    mangled = re.sub(r"(?<=[A-Z])s[0-9a-zA-Z]*_", "", mangled)  # disambiguators (crate hashes, impl indices)
+    while i < len(mangled):
+        if mangled[i].isdigit() and (i == 0 or not mangled[i - 1].isdigit()):
+            j = i
+            while j < len(mangled) and mangled[j].isdigit():
+                j += 1
+            n = int(mangled[i:j])
+            if j < len(mangled) and mangled[j] == "_":
+                j += 1
+            word = mangled[j:j + n]
+            if n > 0 and len(word) == n and re.match(r"^[A-Za-z_][A-Za-z0-9_]*$", word):
+                out.append(word)
+                i = j + n
+                continue
+        i += 1
+    return "::".join(out) if out else mangled
+
+
 def main():
     tier = sys.argv[sys.argv.index("--tier") + 1] if "--tier" in sys.argv else "quick"
     props = sys.argv[sys.argv.index("--props") + 1].split(",") if "--props" in sys.argv else sorted(plans.PLANS)
     covdir = os.path.join(run_check.CACHE, "cov")
     os.makedirs(covdir, exist_ok=True)
-    for f in glob.glob(os.path.join(covdir, "*.profraw")):
-        os.remove(f)
+    reuse = "--reuse" in sys.argv
+    if not reuse:
+        for f in glob.glob(os.path.join(covdir, "*.profraw")):
+            os.remove(f)
     env = dict(os.environ, VERIF_ONLY_CFGS="cov")
     per_prop = {}
     for p in props:
+        if reuse:
+            per_prop[p] = (0, "(profiles reused)")
+            continue
         r = subprocess.run([sys.executable, os.path.join(VERIF, "run_check.py"), p, "--tier", tier], env=env, stdout=subprocess.PIPE, stderr=subprocess.STDOUT, text=True)
         last = [l for l in r.stdout.splitlines() if l.startswith(p + " ")]
         per_prop[p] = (r.returncode, last[-1] if last else r.stdout[-300:])
@@ -45,7 +72,7 @@ def main():
     prof = os.path.join(covdir, "merged.profdata")
     listing = os.path.join(covdir, "files.txt")
     open(listing, "w").write("\n".join(raws) + "\n")
-    subprocess.check_call([os.path.join(BIN, "llvm-profdata"), "merge", "-sparse", "-f", listing, "-o", prof])
+    subprocess.check_call([os.path.join(BIN, "llvm-profdata"), "merge", "-sparse", "--failure-mode=all", "-f", listing, "-o", prof])
     binary = os.path.join(run_check.ws_dir("cov"), "target", "release", "vmon")
     out = subprocess.run([os.path.join(BIN, "llvm-cov"), "export", "-format=text", "-instr-profile", prof, binary, "-ignore-filename-regex", r"(\.cargo|rustc|/verif/)"],
                          stdout=subprocess.PIPE, text=True, check=True).stdout
@@ -59,15 +86,8 @@ def main():
         s = f["summary"]
         rows.append((name[len(repo) + 1:], s["lines"]["covered"], s["lines"]["count"], s["functions"]["covered"], s["functions"]["count"], s["regions"]["covered"], s["regions"]["count"]))
     # Functions never reached (fold instantiations: a generic function counts as reached if any instantiation was).
-    dem = {}
     names = [fn["name"] for fn in data["functions"]]
-    try:
-        d = subprocess.run(["rustfilt"], input="\n".join(names), stdout=subprocess.PIPE, text=True)
-        demangled = d.stdout.splitlines() if d.returncode == 0 else names
-    except FileNotFoundError:
-        demangled = names
-    if len(demangled) != len(names):
-        demangled = names
+    demangled = [idents(n) for n in names]
     reached = {}
     where = {}
     for fn, dn in zip(data["functions"], demangled):
@@ -111,8 +131,9 @@ def main():
             zero = sorted(l for l, c in lines.items() if c == 0)
             o.write("%s: %s\n" % (name[len(repo) + 1:], " ".join(map(str, zero))))
     print(open(os.path.join(VERIF, "coverage", "REPORT.md")).read()[:6000])
-    for f in raws:
-        os.remove(f)
+    if "--keep-raw" not in sys.argv:
+        for f in raws:
+            os.remove(f)
     return 0
 
 
